@@ -263,3 +263,91 @@ impl Dictionary {
         Ok(self)
     }
 }
+
+#[cfg(feature = "verif")]
+impl DictionaryInner {
+    pub(crate) const fn verif_from_parts(
+        system_lexicon: Lexicon,
+        user_lexicon: Option<Lexicon>,
+        connector: ConnectorWrapper,
+        mapper: Option<ConnIdMapper>,
+        char_prop: CharProperty,
+        unk_handler: UnkHandler,
+    ) -> Self {
+        Self {
+            system_lexicon,
+            user_lexicon,
+            connector,
+            mapper,
+            char_prop,
+            unk_handler,
+        }
+    }
+}
+
+#[cfg(feature = "verif")]
+impl Dictionary {
+    /// Assembles a dictionary from already-built parts, without the builder's checks.
+    pub const fn verif_from_parts(
+        system_lexicon: Lexicon,
+        user_lexicon: Option<Lexicon>,
+        connector: ConnectorWrapper,
+        mapper: Option<ConnIdMapper>,
+        char_prop: CharProperty,
+        unk_handler: UnkHandler,
+    ) -> Self {
+        Self {
+            data: DictionaryInner::verif_from_parts(
+                system_lexicon,
+                user_lexicon,
+                connector,
+                mapper,
+                char_prop,
+                unk_handler,
+            ),
+        }
+    }
+
+    pub const fn verif_system_lexicon(&self) -> &Lexicon {
+        self.system_lexicon()
+    }
+
+    pub const fn verif_user_lexicon(&self) -> Option<&Lexicon> {
+        self.user_lexicon()
+    }
+
+    pub const fn verif_connector(&self) -> &ConnectorWrapper {
+        self.connector()
+    }
+
+    pub const fn verif_mapper(&self) -> Option<&ConnIdMapper> {
+        self.mapper()
+    }
+
+    pub const fn verif_char_prop(&self) -> &CharProperty {
+        self.char_prop()
+    }
+
+    pub const fn verif_unk_handler(&self) -> &UnkHandler {
+        self.unk_handler()
+    }
+
+    pub fn verif_word_param(&self, word_idx: WordIdx) -> WordParam {
+        self.word_param(word_idx)
+    }
+
+    /// Connection cost between a right id and a left id of the stored connector.
+    pub fn verif_conn_cost(&self, right_id: u16, left_id: u16) -> i32 {
+        self.data.connector.verif_cost(right_id, left_id)
+    }
+
+    /// Same as the system dictionary builder's final step (lexicon build + id verification).
+    pub fn verif_build(
+        system_word_entries: &[crate::dictionary::lexicon::RawWordEntry],
+        connector: ConnectorWrapper,
+        char_prop: CharProperty,
+        unk_handler: UnkHandler,
+    ) -> Result<Self> {
+        SystemDictionaryBuilder::build(system_word_entries, connector, char_prop, unk_handler)
+    }
+}
